@@ -34,7 +34,12 @@ claim("C06", "Lean 4 proofs of termination (potential argument) and genuine fixp
       "(a sweep reported <= eps AND created no grounding) and no sweep of the run reported an amount in (0, eps] (RunExact: the formal content of "
       "'exactly representable bounds'; outright for eps <= 0), every scheduled upward/downward call, alone or in any order and number, reports 0 and "
       "leaves every table structurally identical, and infer() again takes one sweep, reports 0 and returns the same tables. TERMINATION of the "
-      "first-order loop (tables grow; finitely many constants) is not a theorem: it rests on correspondence of sweep counts and the step cap.", "DESIGN.md §6 C06")
+      "first-order loop is a theorem too (Lemmas/FolTerm.lean, Props/C06Term.lean): C06_fol_terminates (over any finite universe U of groundings "
+      "the scheduled calls do not leave, the loop converges within |U| - rows + N sweeps, N*eps > Phi+|U|; the reported amount of every call, "
+      "quantifiers included, EQUALS the drop of the potential Phi), C06_fol_terminates_constants / _exists (the universe of all tuples over the "
+      "constant list is closed under every call on a well-formed formula of any kind), C06_fol_returns_at_fixpoint (both halves chained). "
+      "The executed loop with the grounding-propagation layer (pInfer) equals fInfer when no partially quantified formula is an operand "
+      "(C06_pInfer_is_fInfer); with such operands termination rests on correspondence of sweep counts and the step cap.", "DESIGN.md §6 C06, §11.7")
 claim("C07", "Lean 4 proof of confluence by chaotic iteration over monotone inflationary un-arrested steps + multi-order differential runs",
       "Theorems C07_confluent (two arbitrary step lists that both end in an arrest-free common fixpoint end in the same state), "
       "C07_contradiction_invariant / C07_contradiction_iff (if one exhaustive schedule ends contradiction-free no schedule ever shows one; "
@@ -52,7 +57,10 @@ claim("C13", "Lean 4 proof that reported amount = 0 iff state unchanged for ever
       NOTE_COMMON + " The model follows the repaired code (Iff/XOr add their inner amounts); the pre-repair behaviour is kept as a corpus witness. First-order: "
       "C13_fol_nonneg / C13_fol_up_zero_iff / C13_fol_down_zero_iff / C13_fol_pass_zero_iff (Lemmas/FolAmount.lean): for every first-order KB, node kind and "
       "in-range state a call or any sequence of calls reports 0 iff every grounding of every formula READS as before (stored bounds, else world default; "
-      "rows created at the default change no read); C13_layer_amount carries this through the grounding-propagation layer.", "DESIGN.md §6 C13")
+      "rows created at the default change no read); C13_layer_amount carries this through the grounding-propagation layer; "
+      "C13_fol_amount_eq_potential_drop: the amount any list of first-order calls reports EQUALS the drop of the total width of all readings over "
+      "any finite universe containing the stored groundings (all six call kinds, duplicate merging and the quantifiers' single-bound selection "
+      "included).", "DESIGN.md §6 C13, §11.7")
 claim("C17", "Lean 4 proofs of range invariant, contradiction characterisation and totality of state() + exhaustive grid correspondence",
       "Theorems C17_range (every reachable bound in [0,1] for every KB and call sequence), C17_contradiction_iff / _alpha_one / C17_hasContra_iff "
       "(contradiction <=> crossed bounds outside the same-classical-region tolerance; has_contradiction <=> some formula), C17_state_total / "
